@@ -82,6 +82,29 @@ where
     }
 }
 
+/// The DataStreams under test holds no stream, so the per-stream handlers behind the (empty)
+/// BTreeMap / HashMap lookups are unreachable; CBMC nevertheless walks them symbolically (1.3 M SSA
+/// steps, 32 M clauses for STOP_SENDING). They are replaced by stubs that FAIL when reached, so the
+/// cut cannot hide anything: reaching one is reported as a failed check.
+fn stub_be_stopped<TX>(_o: &Outgoing<TX>, _error_code: u64) -> Option<u64> {
+    panic!("per-stream handler reached although no stream exists")
+}
+fn stub_update_window<TX>(_o: &Outgoing<TX>, _max_stream_data: u64) {
+    panic!("per-stream handler reached although no stream exists")
+}
+fn stub_in_recv_data<TX>(_i: &Incoming<TX>, _f: StreamFrame, _b: Bytes) -> Result<(bool, usize), QuicError>
+where
+    TX: SendFrame<qbase::frame::StopSendingFrame> + SendFrame<MaxStreamDataFrame> + Clone + Send + 'static,
+{
+    panic!("per-stream handler reached although no stream exists")
+}
+fn stub_in_recv_reset<TX>(_i: &Incoming<TX>, _f: ResetStreamFrame) -> Result<usize, QuicError>
+where
+    TX: SendFrame<qbase::frame::StopSendingFrame> + SendFrame<MaxStreamDataFrame> + Clone + Send + 'static,
+{
+    panic!("per-stream handler reached although no stream exists")
+}
+
 fn any_role() -> Role {
     if kani::any() { Role::Client } else { Role::Server }
 }
@@ -190,12 +213,12 @@ fn guard_step<const KIND: u8>(uncreated_local_is_error: bool) {
     assert!(calls == accept_path as u32 && (!accept_path || called_with == raw),
         "the accept path (implicit opening) is entered exactly once, with this id, iff the stream is peer-initiated and the frame is allowed on it");
     assert!(unsafe { SENT } == 0, "nothing is emitted");
-    kani::cover!(got == Verdict::StreamState && local, "wrong direction on a locally initiated stream");
-    kani::cover!(got == Verdict::StreamState && !local, "wrong direction on a peer-initiated stream");
-    kani::cover!(got == Verdict::StreamLimit && uni, "beyond the advertised count (uni)");
+    // witnesses (those that the frame kind admits)
+    kani::cover!(got == Verdict::StreamState && (local == sender_frame), "wrong direction: sender-side frame on our send-only stream / receiver-side frame on the peer's send-only stream");
+    kani::cover!(got == Verdict::StreamLimit && (uni == sender_frame), "beyond the advertised count (sender-side frame: uni; receiver-side frame: bidi)");
     kani::cover!(got == Verdict::StreamLimit && !uni, "beyond the advertised count (bidi)");
     kani::cover!(got == Verdict::Accepted && !local && index > 0, "peer-initiated within the count");
-    kani::cover!(got == Verdict::Accepted && local, "locally initiated, right direction");
+    kani::cover!(uncreated_local_is_error || (got == Verdict::Accepted && local), "locally initiated, right direction");
     core::mem::forget(res);
     core::mem::forget(ds);
 }
@@ -208,6 +231,10 @@ macro_rules! dir_harness {
         #[kani::stub(core::fmt::write, stub_write)]
         #[kani::stub(std::sync::Mutex::lock, stub_lock)]
         #[kani::stub(DataStreams::try_accept_sid, stub_try_accept)]
+        #[kani::stub(Outgoing::be_stopped, stub_be_stopped)]
+        #[kani::stub(Outgoing::update_window, stub_update_window)]
+        #[kani::stub(Incoming::recv_data, stub_in_recv_data)]
+        #[kani::stub(Incoming::recv_reset, stub_in_recv_reset)]
         fn $name() {
             guard_step::<$k>($strict);
         }
